@@ -161,13 +161,14 @@ func hrCookieCell(t *testing.T, rec *Rec, g *Gates, scn string, cell map[string]
 		sid = s.Sid
 		obs["status"] = 101
 	} else {
-		hold, _ := cell["hold"].(bool)
+		holdAt, _ := cell["hold"].(string)
+		hold := holdAt != "" && holdAt != "none"
 		if hold {
-			g.Park("handshake.constructed", true)
+			g.Park(holdAt, true)
 		}
 		s, r := w.Handshake(4, false, false, ReqOpt{})
 		if hold {
-			g.Park("handshake.constructed", false)
+			g.Park(holdAt, false)
 			g.ReleaseAll()
 			synctest.Wait()
 			for _, p := range r.Pkts {
